@@ -5,6 +5,7 @@ import TantivyModel.Proofs.MergeKeys
 import TantivyModel.Proofs.MergeAssoc
 import TantivyModel.Proofs.MergeShuffled
 import TantivyModel.Proofs.MergeMulti5
+import TantivyModel.Proofs.Sorted
 /-!
 # C04 — Merging never changes the logical content of the index
 
@@ -793,6 +794,54 @@ def exTraceRE : List EvM :=
 example : (SysM.init.run (exTraceRE.take 10)).st.committed.map (·.segId) = [2, 0] := by decide
 example : (SysM.init.run exTraceRE).st.committed.map (·.segId) = [2, 0]
     ∧ publishedUids (SysM.init.run exTraceRE).st = [12, 10] := by decide
+
+/-! ## merges of a sorted index -/
+
+section SortedIndex
+open TantivyModel.Sorted
+
+/-- MERGING A SORTED INDEX BY STACKING KEEPS THE INDEX-SORT ORDER, for the decision procedure as
+extracted from the source (`segment_has_live_nulls` with its scan over `doc_ids_alive()`, and the
+disjunct-ranges test): whenever it chooses to stack the readers instead of merging them by sort
+key, the stacked live documents are in the configured sort order — the merge path chosen is
+invisible to everything that reads documents in index-sort order. The model of the scan is
+selected by the extracted guards `LIVE_NULLS_SCAN_SHAPE` / `STACK_DECISION_SHAPE`; an edit of the
+scan expression or of the early returns makes `stackDecisionG = none`, and the `example` below
+(a segment with deletes whose only live document without value is beyond the live count) stops
+compiling. -/
+theorem C04_sorted_merge_stack_keeps_order_extracted (desc : Bool) (cs : List SegCol)
+    (hlen : ∀ c ∈ cs, c.keys.length = c.alive.length)
+    (hcard : ∀ c ∈ cs, CardOk c)
+    (hnm : ∀ c ∈ cs, c.card = .multivalued → Gen.LIVE_NULLS_SCANS_MULTIVALUED = 1)
+    (hstats : ∀ c ∈ cs, StatsOk c) (hne : ∀ c ∈ cs, c.liveKeys ≠ [])
+    (hsorted : ∀ c ∈ cs, sortedKeys desc c.liveKeys)
+    (hdec : stackDecisionG desc cs = some true) :
+    sortedKeys desc ((cs.map SegCol.liveKeys).flatten) := by
+  unfold stackDecisionG at hdec
+  split at hdec
+  · simp only [Option.some.injEq] at hdec
+    apply stack_sound_of_scan hasLiveNullsG desc cs ?_ hstats hne hsorted hdec
+    intro c hc hfalse k hk hknone
+    unfold hasLiveNullsG at hfalse
+    by_cases hg : Gen.LIVE_NULLS_SCANS_MULTIVALUED = 1
+    · simp only [hg, if_true] at hfalse
+      have := (hasLiveNullsFixed_iff c (hlen c hc) (hcard c hc)).2 ⟨k, hk, hknone⟩
+      rw [hfalse] at this; cases this
+    · simp only [hg, if_false] at hfalse
+      have hnmc : c.card ≠ .multivalued := fun h => hg (hnm c hc h)
+      have := (hasLiveNulls_iff c (hlen c hc) (hcard c hc) hnmc).2 ⟨k, hk, hknone⟩
+      rw [hfalse] at this; cases this
+  · cases hdec
+
+-- descending, [9, 8, 7, NULL] with 8 and 7 deleted (1 value + the NULL live: the NULL sits at doc
+-- id 3 >= 2 live docs) before [5, 4]: the extracted decision must NOT stack
+example : stackDecisionG true [⟨.optional, [some 9, some 8, some 7, none], [true, false, false, true], (7, 9)⟩,
+    ⟨.full, [some 5, some 4], [true, true], (4, 5)⟩] = some false := by decide
+-- the same without the live NULL: stacked
+example : stackDecisionG true [⟨.optional, [some 9, some 8, some 7, none], [true, false, true, false], (7, 9)⟩,
+    ⟨.full, [some 5, some 4], [true, true], (4, 5)⟩] = some true := by decide
+
+end SortedIndex
 
 /-- three committed segments; two merges that share segment 1 run at once, a delete is committed
 meanwhile; the first to end is swapped in (with reconciliation), the second finds a source
